@@ -16,12 +16,26 @@ def dyadic(lo, hi, denom=8):
     return st.integers(int(lo * denom), int(hi * denom)).map(lambda k: k / denom)
 
 
+# constants with a full mantissa (they must reach the engine with every digit)
+LONG_CONSTANTS = [3.141592653589793, 2.718281828459045, 0.3989422804014327, 1 / 3, 2.9999999, -1.2345678912, 0.1 + 0.2,
+                  -0.6931471805599453, 1.0000000001, 0.123456789, 2.5000001, -2.0000000001, 4.999999999, 0.7071067811865476]
+
+
+def _long(lo, hi):
+    ok = [c for c in LONG_CONSTANTS if lo <= c <= hi]
+    # subnormal constants are not generated: the engine refuses them (known finding of C01, probed there)
+    fl = st.floats(lo, hi, allow_nan=False, allow_subnormal=False)
+    return st.one_of(st.sampled_from(ok), fl) if ok else fl
+
+
 def real_values(lo=-3.0, hi=3.0):
-    return st.one_of(dyadic(lo, hi), st.floats(lo, hi).map(lambda x: round(x, 3)))
+    return st.one_of(dyadic(lo, hi), dyadic(lo, hi), st.floats(lo, hi).map(lambda x: round(x, 3)),
+                     st.floats(lo, hi).map(lambda x: round(x, 3)), _long(lo, hi))
 
 
 def pos_values(lo=0.125, hi=5.0):
-    return st.one_of(dyadic(lo, hi), st.floats(lo, hi).map(lambda x: round(x, 3) or lo))
+    return st.one_of(dyadic(lo, hi), dyadic(lo, hi), st.floats(lo, hi).map(lambda x: round(x, 3) or lo),
+                     st.floats(lo, hi).map(lambda x: round(x, 3) or lo), _long(lo, hi))
 
 
 @st.composite
@@ -127,6 +141,16 @@ class TreeGen:
         if self.literals and self._p(0.3):
             return ['Lit', v]
         return ['Num', v]
+
+    def _beta_with_value(self, v):
+        """A parameter whose value is exactly v (a new fixed or free one), or the constant when none is left."""
+        remaining = [n for n in self.beta_pool if n not in self.betas]
+        if not remaining or len(self.betas) >= self.max_betas:
+            return self._num(v)
+        self.nodes += 1
+        spec = ['Beta', remaining[0], v, None, None, self._choose([0, 1]) if self.allow_fixed else 0]
+        self.betas[remaining[0]] = spec
+        return list(spec)
 
     def _beta(self, positive=False):
         self.nodes += 1
@@ -337,7 +361,17 @@ class TreeGen:
             if k == 'leaf':
                 self.nodes -= 1
                 return self._bool_leaf()
-            if k == 'cmp_real':
+            if k == 'cmp_real' and self._p(0.2):
+                # two exactly representable constants that differ by (almost) nothing: a comparison is exact
+                op = self._choose(['Ne', 'Eq', 'Eq', 'Le', 'Lt', 'Ge', 'Gt'])
+                v = self.draw(dyadic(-2, 2))
+                w = v + self._choose([0.0, 1e-9, -1e-9, 4e-9, 2.5e-10, -1e-12, 1e-15])
+                left = self._beta_with_value(v) if not self.param_free and self._p(0.5) else self._num(v)
+                pair = [left, self._num(w)]
+                if self._p(0.5):
+                    pair.reverse()
+                s = [op] + pair
+            elif k == 'cmp_real':
                 op = self._choose(['Le', 'Ge', 'Lt', 'Gt', 'Ne', 'Eq'])
                 s = [op, self.real(min(d, 2)), self.real(min(d, 2))]
             elif k == 'cmp_int':
